@@ -479,3 +479,118 @@ Proof.
   vm_compute. repeat split; reflexivity.
 Qed.
 Print Assumptions vimgrep_one_line_per_match_refuted.
+
+(* ======================= multi-line --only-matching / per-match records ======================= *)
+From RG Require Import Spec.PrinterMultiLineSpec Proofs.PrinterMultiLineProofs.
+
+(* 11. multi-line --only-matching (sink_slow_multi_line_only_matching), for every block and every
+       ordered list of recorded spans (what find_iter yields: C10 recorded_submatches_are_ordered):
+       the output is the concatenation of the records om_block_records, and EVERY record is, for some
+       line i of the block and some recorded submatch m with a non-empty part [a, b) on that line's
+       content (a = max(line start, m start), b = min(content end, m end)):
+         prelude with byte offset = block offset + START OF m, line number = block's number + i,
+         column = 1 + START OF m (in the block, not in the line), then the input bytes [a, b) of the
+         block, then the searcher's line terminator.
+       prelude_roundtrip_any_text (theorem 7) reads each record back. *)
+Theorem only_matching_multi_line_record_layout :
+  forall cfg env path sk w,
+    st_only_matching cfg = true -> k_matches sk <> [] -> spans_ordered 0 (k_matches sk) ->
+    w_out (sink_slow_multi_line cfg env path sk w)
+    = w_out w ++ concat (om_block_records cfg env path sk (block_lines env sk) 0) /\
+    length (om_block_records cfg env path sk (block_lines env sk) 0)
+    = list_sum (map (pieces_of env sk (block_lines env sk)) (k_matches sk)).
+Proof. exact only_matching_multi_line_records_proof. Qed.
+Print Assumptions only_matching_multi_line_record_layout.
+
+Theorem only_matching_multi_line_record_origin :
+  forall cfg env path sk rec,
+    In rec (om_block_records cfg env path sk (block_lines env sk) 0) ->
+    exists i line m,
+      nth_error (block_lines env sk) i = Some line /\ In m (k_matches sk) /\
+      let a := Nat.max (fst line) (fst m) in
+      let b := Nat.min (content_end env sk line) (snd m) in
+      a < b /\
+      rec = prelude_spec cfg path (separator_field cfg sk) (k_off sk + fst m)
+                         (option_map (fun n => n + i) (k_lnum sk)) (Some (fst m + 1))
+            ++ sub (k_bytes sk) a b ++ lt_bytes (e_lt env).
+Proof. exact only_matching_multi_line_record_origin_proof. Qed.
+Print Assumptions only_matching_multi_line_record_origin.
+
+(* 12. multi-line per-match / --vimgrep (sink_slow_multi_per_match), for every block and every list of
+       spans: the output is the concatenation of pm_block_records — for every submatch in order, the
+       lines it touches (line start < m end and m start < line end, terminator included), only the
+       first of them with per_match_one_line — and every record is, for such a line:
+         prelude with the LINE's byte offset and number, column = 1 + (m start - line start), 1 when m
+         began on an earlier line; then the whole content of the line; then the terminator. *)
+Theorem per_match_multi_line_record_layout :
+  forall cfg env path sk w,
+    st_only_matching cfg = false -> st_per_match cfg = true ->
+    w_out (sink_slow_multi_line cfg env path sk w) = w_out w ++ concat (pm_block_records cfg env path sk) /\
+    length (pm_block_records cfg env path sk)
+    = list_sum (map (fun m => let n := lines_touched (block_lines env sk) m in
+                              if st_per_match_one_line cfg then Nat.min 1 n else n) (k_matches sk)).
+Proof. exact per_match_multi_line_records_proof. Qed.
+Print Assumptions per_match_multi_line_record_layout.
+
+Theorem per_match_multi_line_record_origin :
+  forall cfg env path sk rec,
+    In rec (pm_block_records cfg env path sk) ->
+    exists m i line, In m (k_matches sk) /\ nth_error (block_lines env sk) i = Some line /\
+      fst line < snd m /\ fst m < snd line /\
+      rec = prelude_spec cfg path (separator_field cfg sk) (k_off sk + fst line)
+                         (option_map (fun n => n + i) (k_lnum sk)) (Some (fst m - fst line + 1))
+            ++ sub (k_bytes sk) (fst line) (content_end env sk line) ++ lt_bytes (e_lt env).
+Proof. exact per_match_multi_line_record_origin_proof. Qed.
+Print Assumptions per_match_multi_line_record_origin.
+
+(* the guard of theorem 9 always holds for the lines of a block: trimming the terminator of a LineStep
+   line (also the two-byte CRLF) never moves its end before its start *)
+Theorem block_lines_trim_guard :
+  forall env sk, Forall (fun se => fst se <= trim_line_terminator (e_lt env) (k_bytes sk) (fst se) (snd se))
+                        (line_spans (lt_byte (e_lt env)) (k_bytes sk)).
+Proof. exact block_lines_trim_ok. Qed.
+Print Assumptions block_lines_trim_guard.
+
+(* non-vacuity, both replayed on the binary with printf 'abc\nde\n':
+   rg -U -o -n -b --column 'c\nd'  prints 1:3:2:c / 2:3:2:d ;
+   rg -U --vimgrep -b 'c\nd|e'     prints 1:3:0:abc / 2:2:4:de  (per_match_one_line) *)
+Definition ml_env9 : senv := mkEnv (LTByte 10) true false 0 false false.
+Definition abcde : bytes := [97; 98; 99; 10; 100; 101; 10]%N.
+Definition cfg_o9 : stdconfig := mkStd false false true false false None true true false None None [58]%N [45]%N None.
+Definition cfg_v9 : stdconfig := mkStd false false false true true None true true false None None [58]%N [45]%N None.
+Example only_matching_multi_line_record_example :
+  w_out (sink_slow_multi_line cfg_o9 ml_env9 None (mkSunk abcde 0 (Some 1) None [(2, 5)]) w_new)
+  = [49; 58; 51; 58; 50; 58; 99; 10;  50; 58; 51; 58; 50; 58; 100; 10]%N
+  /\ om_block_records cfg_o9 ml_env9 None (mkSunk abcde 0 (Some 1) None [(2, 5)])
+       (block_lines ml_env9 (mkSunk abcde 0 (Some 1) None [(2, 5)])) 0
+     = [[49; 58; 51; 58; 50; 58; 99; 10]; [50; 58; 51; 58; 50; 58; 100; 10]]%N.
+Proof. vm_compute. split; reflexivity. Qed.
+Example per_match_multi_line_record_example :
+  w_out (sink_slow_multi_line cfg_v9 ml_env9 None (mkSunk abcde 0 (Some 1) None [(2, 5); (5, 6)]) w_new)
+  = [49; 58; 51; 58; 48; 58; 97; 98; 99; 10;  50; 58; 50; 58; 52; 58; 100; 101; 10]%N
+  /\ pm_block_records cfg_v9 ml_env9 None (mkSunk abcde 0 (Some 1) None [(2, 5); (5, 6)])
+     = [[49; 58; 51; 58; 48; 58; 97; 98; 99; 10]; [50; 58; 50; 58; 52; 58; 100; 101; 10]]%N.
+Proof. vm_compute. split; reflexivity. Qed.
+
+(* OBSERVATION OUTSIDE THE PROPERTY (C09's statement excludes only-matching; this refutes a natural
+   reading of --column under -U -o, not the property; not a known finding)
+   MultiLineOnlyMatchingColumnIsBlockRelative: theorem 11 says the column of a multi-line -o
+   record is 1 + the submatch's start IN THE BLOCK.  So "the column is the submatch's column in its own
+   line" (what line-oriented -o, --vimgrep and multi-line --vimgrep print) is false as soon as a block has
+   a submatch that starts on a later line.  Witness = the real run
+     printf 'a1\nb1\n' | rg -U -o -n --column '[ab]1\n'     prints 1:1:a1 and 2:4:b1
+   (the two touching matches form one block; "b1" starts at column 1 of line 2, the line has 2 bytes;
+    rg -U --vimgrep prints 2:1, rg -o without -U prints 2:1). *)
+Definition cfg_oc9 : stdconfig := mkStd false false true false false None true false false None None [58]%N [45]%N None.
+Definition a1b1 : sunk := mkSunk [97; 49; 10; 98; 49; 10]%N 0 (Some 1) None [(0, 3); (3, 6)].
+Theorem only_matching_multi_line_column_is_line_relative_refuted :
+  exists cfg env sk,
+    st_only_matching cfg = true /\ st_column cfg = true /\ spans_ordered 0 (k_matches sk) /\
+    nth_error (block_lines env sk) 1 = Some (3, 6) /\ In (3, 6) (k_matches sk) /\   (* line 2 = submatch 2 = [3, 6) *)
+    w_out (sink_slow_multi_line cfg env None sk w_new)
+    = [49; 58; 49; 58; 97; 49; 10;  50; 58; 52; 58; 98; 49; 10]%N.                  (* "1:1:a1\n2:4:b1\n" *)
+Proof.
+  exists cfg_oc9, ml_env9, a1b1. vm_compute.
+  repeat split; try reflexivity; try lia. right. left. reflexivity.
+Qed.
+Print Assumptions only_matching_multi_line_column_is_line_relative_refuted.
